@@ -334,3 +334,13 @@ Theorem C06_binomial_large :
   (forall n k : Z, (0 <= k <= n)%Z -> binomial ROps n k = binomial ROps n (n - k)).
 Proof. exact (conj binomial_large_defined binomial_symmetry_all). Qed.
 Print Assumptions C06_binomial_large.
+
+(** "Gamma ... accurate over its whole domain", the upper end: Gamma is exp(GammaLn) at EVERY x > 0, however large the result - there is no bound above which
+    the answer is replaced by anything else (in doubles: infinity only where exp itself overflows).  ln undoes Gamma; Gamma exceeds a level M > 0 exactly when
+    GammaLn exceeds ln M; two answers of Gamma are ordered as the two GammaLn are. *)
+Theorem C06_gamma_no_threshold (x : R) : 0 < x ->
+  exists g v, gammaln ROps x = Ok g /\ gamma ROps x = Ok v /\ ln v = g /\
+    (forall M, 0 < M -> (M < v <-> ln M < g)) /\
+    (forall y gy vy, gammaln ROps y = Ok gy -> gamma ROps y = Ok vy -> (v < vy <-> g < gy)).
+Proof. exact (gamma_no_threshold x). Qed.
+Print Assumptions C06_gamma_no_threshold.
